@@ -77,6 +77,31 @@ impl Backend {
         std::fs::create_dir_all(&dir).unwrap();
         Backend::Disk(dir)
     }
+    /// `overwrite`: the crate is asked to reset whatever the stores hold (Storage::open(.., true))
+    pub async fn storage_with(&self, overwrite: bool) -> Result<Storage, HypercoreError> {
+        if !overwrite {
+            return self.storage().await;
+        }
+        match self {
+            Backend::World(w) => {
+                let w = w.clone();
+                let create = move |store: Store| {
+                    let w = w.clone();
+                    async move { Ok(Box::new(world::Handle { world: w, store: world::store_idx(&store) }) as Box<dyn StorageTraits + Send>) }.boxed()
+                };
+                Storage::open(create, true).await
+            }
+            Backend::Memory(m) => {
+                let m = m.clone();
+                let create = move |store: Store| {
+                    let h = m[world::store_idx(&store)].clone();
+                    async move { Ok(Box::new(SharedMem(h)) as Box<dyn StorageTraits + Send>) }.boxed()
+                };
+                Storage::open(create, true).await
+            }
+            Backend::Disk(dir) => Storage::new_disk(dir, true).await,
+        }
+    }
     pub async fn storage(&self) -> Result<Storage, HypercoreError> {
         match self {
             Backend::World(w) => world::storage_of(w).await,
